@@ -19,7 +19,7 @@ from harness.par import pmap
 TIERS = {
     "quick": dict(MaxWords=3, Lens={1, 2, 3}, Kinds={"h", "n", "a"}, Widths={0, 1, 2, 3, 4, 5, 6, 8}, Offs={0, 2, 3},
                   Mds={True, False}),
-    "thorough": dict(MaxWords=4, Lens={1, 2, 4}, Kinds={"h", "n", "a"}, Widths={-1, 0, 1, 2, 3, 4, 5, 6, 7, 8, 10, 12},
+    "thorough": dict(MaxWords=4, Lens={1, 2, 4}, Kinds={"h", "n", "a"}, Widths={0, 1, 2, 3, 4, 5, 6, 7, 8, 10, 12},
                      Offs={0, 1, 2, 4}, Mds={True, False}),
 }
 MODEL_INVS = ["Lossless", "NoEmptyLine", "OneLine", "EscapeExact", "BoundedK", "MaximalK", "Bounded13",
@@ -219,6 +219,11 @@ def run(tier: str) -> int:
     behaviours.sort(key=lambda b: json.dumps(b))
     # ---- leg B ----
     cases = [(cid, b[1], b[2], b[3], b[4], b[5], b[6]) for cid, b in enumerate(behaviours)]
+    # negative widths cannot be written in a TLC cfg file: every width-0 behaviour is also observed at width -1 and -7
+    # (same machine behaviour: "width <= 0 = no wrapping"); the trace carries the negative width
+    twins = [(len(cases) + k, c[1], wneg, c[3], c[4], c[5], c[6]) for k, (c, wneg) in
+             enumerate((c, wneg) for c in cases if c[2] == 0 for wneg in (-1, -7))]
+    cases += twins
     results = pmap(_observe, cases)
     traces, meta, alt = [], {}, {}
     tid = 0
